@@ -34,6 +34,51 @@ use sqruff_lib_core::parser::segments::fix::SourceFix;
 use sqruff_lib_core::templaters::base::TemplatedFile;
 use walkdir::WalkDir;
 
+/// Verification hook (only with `--cfg sqruff_verif`): observe the fix loop.
+#[cfg(sqruff_verif)]
+pub mod verif_hook {
+    use super::*;
+    use std::cell::RefCell;
+
+    pub enum FixEvent<'a> {
+        Start {
+            tree: &'a ErasedSegment,
+            fix: bool,
+        },
+        Batch {
+            phase: LintPhase,
+            pass: usize,
+            rule: &'static str,
+            fixes: &'a [LintFix],
+            before: &'a ErasedSegment,
+            after: &'a ErasedSegment,
+            accepted: bool,
+        },
+        PassEnd {
+            phase: LintPhase,
+            pass: usize,
+            changed: bool,
+        },
+        End {
+            tree: &'a ErasedSegment,
+        },
+    }
+
+    type Hook = Box<dyn FnMut(FixEvent<'_>)>;
+
+    thread_local! {
+        pub static FIX_HOOK: RefCell<Option<Hook>> = const { RefCell::new(None) };
+    }
+
+    pub fn emit(ev: FixEvent<'_>) {
+        FIX_HOOK.with(|h| {
+            if let Some(f) = h.borrow_mut().as_mut() {
+                f(ev)
+            }
+        })
+    }
+}
+
 pub struct Linter {
     config: FluffConfig,
     formatter: Option<Arc<dyn Formatter>>,
@@ -255,6 +300,8 @@ impl Linter {
         };
         let mut previous_versions: AHashSet<(SmolStr, Vec<SourceFix>)> =
             [(tree.raw().to_smolstr(), vec![])].into_iter().collect();
+        #[cfg(sqruff_verif)]
+        verif_hook::emit(verif_hook::FixEvent::Start { tree: &tree, fix });
 
         // If we are fixing then we want to loop up to the runaway_limit, otherwise just
         // once for linting.
@@ -350,6 +397,8 @@ impl Linter {
                             continue;
                         }
 
+                        #[cfg(sqruff_verif)]
+                        let verif_fixes = fixes.clone();
                         let mut anchor_info = compute_anchor_edit_info(fixes.into_iter());
                         let (new_tree, _, _, _valid) = tree.apply_fixes(&mut anchor_info);
 
@@ -363,6 +412,16 @@ impl Linter {
 
                         let loop_check_tuple =
                             (new_tree.raw().to_smolstr(), new_tree.get_source_fixes());
+                        #[cfg(sqruff_verif)]
+                        verif_hook::emit(verif_hook::FixEvent::Batch {
+                            phase: phase.clone(),
+                            pass: loop_,
+                            rule: rule.code(),
+                            fixes: &verif_fixes,
+                            before: &tree,
+                            after: &new_tree,
+                            accepted: !previous_versions.contains(&loop_check_tuple),
+                        });
 
                         if previous_versions.insert(loop_check_tuple) {
                             tree = new_tree;
@@ -372,12 +431,20 @@ impl Linter {
                     }
                 }
 
+                #[cfg(sqruff_verif)]
+                verif_hook::emit(verif_hook::FixEvent::PassEnd {
+                    phase: phase.clone(),
+                    pass: loop_,
+                    changed,
+                });
                 if fix && !changed {
                     break;
                 }
             }
         }
 
+        #[cfg(sqruff_verif)]
+        verif_hook::emit(verif_hook::FixEvent::End { tree: &tree });
         (tree, ignore_mask, initial_linting_errors)
     }
 
